@@ -28,7 +28,7 @@ c = REG.contract('packet.Packet.decode', props=['C01', 'C02'])
 c.param('self', Ref('Packet')).param('encoded_packet', ANY)
 c.requires('isinstance(encoded_packet, (str, bytes, bytearray))', 'wire-type')
 c.raises('ValueError', 'dec_fails(encoded_packet)')
-c.may_raise('RecursionError', 'isinstance(encoded_packet, str) and len(encoded_packet) > 0')
+c.raises('RecursionError', 'dec_recursion(encoded_packet)')
 c.ensures('binary', 'self.binary == dec_binary(encoded_packet)')
 c.ensures('type', 'self.packet_type == dec_type(encoded_packet)')
 c.ensures('data', 'self.data == dec_data(encoded_packet)')
@@ -42,7 +42,8 @@ c.requires('encoded_packet is None or isinstance(encoded_packet, (str, bytes, by
            'wire-type')
 c.raises('ValueError', '(is_bin(data) and packet_type != 4) or '
                        '(encoded_packet is not None and dec_fails(encoded_packet))')
-c.may_raise('RecursionError', 'isinstance(encoded_packet, str) and len(encoded_packet) > 0')
+c.raises('RecursionError', 'encoded_packet is not None and not (is_bin(data) and '
+         'packet_type != 4) and dec_recursion(encoded_packet)')
 c.ensures('cache-empty', 'self.encode_cache is None')
 c.ensures('plain-fields', 'implies(encoded_packet is None, self.packet_type == packet_type '
           'and self.data == data and self.binary == is_bin(data))')
@@ -52,3 +53,17 @@ c.ensures('decoded-fields', 'implies(encoded_packet is not None, '
           'self.data == dec_data(encoded_packet))')
 c.ensures('binary-only-message', 'implies(self.binary, self.packet_type == 4)')
 c.modifies('self.binary', 'self.packet_type', 'self.data', 'self.encode_cache')
+
+# Round trip (RT): decoding the wire form gives back the type and the normalised payload.
+REG.lemma('C01-roundtrip', ['C01', 'C10'],
+          variables={'t': INT, 'd': ANY, 'b64': BOOL},
+          premises=['api_payload(t, d)'],
+          cases=['d is None', 'isinstance(d, str)', 'isinstance(d, bytes)',
+                 'isinstance(d, bytearray)', 'isinstance(d, (dict, list))'],
+          lets={'w': 'wire(t, d, b64)'},
+          goal='(not dec_fails(w)) and implies(not dec_recursion(w), dec_type(w) == t and '
+               'dec_data(w) == norm(d) and dec_binary(w) == is_bin(d))',
+          note='from the postconditions of encode (result == wire) and decode (fields == dec_*)')
+# the type digit is never 'b', so a text packet is never mistaken for base64
+REG.lemma('C01-digit-not-b', ['C01'], variables={'t': INT}, premises=['0 <= t and t <= 6'],
+          goal="len(str(t)) == 1 and str(t) != 'b' and int(str(t)) == t")
